@@ -1,1465 +1,9 @@
-// C20 correspondence harness: drives the real pull-side label handlers
-// (source.AppendDefaultLabelsHandlerWrapper; source.AppendExtraLabelsHandler on top of containerd's
-// snapshotters.AppendInfoHandlerWrapper) over generated manifests, hands the produced annotation maps
-// (and mutated copies of them) to the real readers (source.FromDefaultLabels, service: CRI reader then default
-// reader, fs.neighboringLayers, the prefetch-size parse of fs.Mount) and prints every case with the observed
-// outputs as a Coq term for Model/Labels.v. The model-free oracle evaluates the clauses of C20 directly on the
-// observations with containerd's own labels.Validate / reference.Parse / go-digest Parse.
-//
-// JSON case: the children of the manifest are stored under "ops" so that the driver can shrink them.
+// C20 correspondence harness (handler level): drives the real pull-side label handlers over generated manifests and the
+// real readers over the produced annotation maps; see package verif/harness/c20 for the machinery.
 package main
 
-import (
-	"context"
-	"crypto/sha256"
-	"encoding/hex"
-	"fmt"
-	"reflect"
-	"sort"
-	"strconv"
-	"strings"
-
-	"github.com/containerd/containerd/v2/core/images"
-	"github.com/containerd/containerd/v2/core/remotes/docker"
-	ctdlabels "github.com/containerd/containerd/v2/pkg/labels"
-	"github.com/containerd/containerd/v2/pkg/reference"
-	ctdsnapshotters "github.com/containerd/containerd/v2/pkg/snapshotters"
-	stargzfs "github.com/containerd/stargz-snapshotter/fs"
-	"github.com/containerd/stargz-snapshotter/fs/source"
-	"github.com/containerd/stargz-snapshotter/service"
-	digest "github.com/opencontainers/go-digest"
-	ocispec "github.com/opencontainers/image-spec/specs-go/v1"
-	"verif/harness/hx"
-)
-
-// label keys as the protocol documents them (literal on purpose: independent of the constants in /repo)
-const (
-	kRef         = "containerd.io/snapshot/remote/stargz.reference"
-	kDigest      = "containerd.io/snapshot/remote/stargz.digest"
-	kLayers      = "containerd.io/snapshot/remote/stargz.layers"
-	kURLs        = "containerd.io/snapshot/remote/urls"
-	kURLsPrefix  = "containerd.io/snapshot/remote/urls."
-	kPrefetch    = "containerd.io/snapshot/remote/stargz.prefetch"
-	kCriRef      = "containerd.io/snapshot/cri.image-ref"
-	kCriDigest   = "containerd.io/snapshot/cri.layer-digest"
-	kCriLayers   = "containerd.io/snapshot/cri.image-layers"
-	kCriManifest = "containerd.io/snapshot/cri.manifest-digest"
-)
-
-const (
-	sigEmptyURLs = "C20-urls-empty-list-reads-back-as-one-empty-url"
-	sigCommaURL  = "C20-urls-comma-inside-url-splits"
-	sigShift     = "C20-default-nonlayer-child-shifts-urls-index"
-)
-
-type Child struct {
-	MT     string   `json:"mt"`
-	Digest string   `json:"d"`
-	URLs   []string `json:"u"`
-}
-
-type Mut struct {
-	Op  string `json:"op"` // del | set
-	Key string `json:"key"`
-	Val string `json:"val,omitempty"`
-}
-
-type Probe struct {
-	Layer int   `json:"layer"`
-	Muts  []Mut `json:"muts,omitempty"`
-	Dflt  int64 `json:"dflt"`
-}
-
-type Case struct {
-	Flavour  string  `json:"flavour"` // default | extra
-	MT       string  `json:"mt"`      // media type of the handled descriptor
-	Ref      string  `json:"ref"`
-	Prefetch int64   `json:"prefetch"`
-	MDigest  string  `json:"mdigest"`
-	Children []Child `json:"ops"`
-	Record   []int   `json:"record,omitempty"` // children whose annotations are printed for the model (nil = all)
-	Probes   []Probe `json:"probes"`
-}
-
-// ---------------------------------------------------------------------------------------------
-// observations
-
-type neigh struct {
-	D string
-	U []string
-}
-
-type readRes struct {
-	OK    bool
-	Name  reference.Spec
-	Dg    string
-	URLs  []string
-	Neigh []neigh
-}
-
-type probeObs struct {
-	p     Probe
-	m     map[string]string
-	rdef  readRes
-	rsvc  readRes
-	mount []neigh
-	pf    int64
-}
-
-type obs struct {
-	handlerErr bool
-	panicked   string
-	anns       []map[string]string // per child (nil map = no annotations)
-	probes     []probeObs
-}
-
-func hostsStub(reference.Spec) ([]docker.RegistryHost, error) { return nil, nil }
-
-func specStr(s reference.Spec) string { return s.Locator + "|" + s.Object }
-
-func runReader(gs source.GetSources, m map[string]string) (res readRes, problems []string) {
-	cp := make(map[string]string, len(m))
-	for k, v := range m {
-		cp[k] = v
-	}
-	srcs, err := gs(cp)
-	if err != nil {
-		return readRes{}, nil
-	}
-	if len(srcs) != 1 {
-		return readRes{}, []string{fmt.Sprintf("reader returned %d sources without an error", len(srcs))}
-	}
-	s := srcs[0]
-	res = readRes{OK: true, Name: s.Name, Dg: s.Target.Digest.String(), URLs: s.Target.URLs}
-	ls := s.Manifest.Layers
-	if len(ls) == 0 || ls[0].Digest != s.Target.Digest || !reflect.DeepEqual(ls[0].URLs, s.Target.URLs) {
-		problems = append(problems, "Manifest.Layers does not start with the target descriptor")
-	} else {
-		for _, d := range ls[1:] {
-			res.Neigh = append(res.Neigh, neigh{D: d.Digest.String(), U: d.URLs})
-		}
-	}
-	return res, problems
-}
-
-func mountNeigh(gs source.GetSources, m map[string]string) []neigh {
-	cp := make(map[string]string, len(m))
-	for k, v := range m {
-		cp[k] = v
-	}
-	srcs, err := gs(cp)
-	if err != nil || len(srcs) == 0 {
-		return nil
-	}
-	var out []neigh
-	for _, d := range stargzfs.VerifNeighboringLayers(srcs[0].Manifest, srcs[0].Target) {
-		out = append(out, neigh{D: d.Digest.String(), U: d.URLs})
-	}
-	return out
-}
-
-// prefetch size as fs.Mount computes it (fs/fs.go: strconv.ParseInt(psStr, 10, 64), fallback to the configured size)
-func mountPrefetch(m map[string]string, dflt int64) int64 {
-	if s, ok := m[kPrefetch]; ok {
-		if ps, err := strconv.ParseInt(s, 10, 64); err == nil {
-			return ps
-		}
-	}
-	return dflt
-}
-
-func recorded(c Case, i int) bool {
-	if c.Record == nil {
-		return true
-	}
-	for _, x := range c.Record {
-		if x == i {
-			return true
-		}
-	}
-	return false
-}
-
-func execCase(c Case) (o obs, problems []string) {
-	children := make([]ocispec.Descriptor, len(c.Children))
-	for i, ch := range c.Children {
-		children[i] = ocispec.Descriptor{MediaType: ch.MT, Digest: digest.Digest(ch.Digest), Size: int64(100 + i)}
-		if ch.URLs != nil {
-			children[i].URLs = append([]string{}, ch.URLs...)
-		}
-	}
-	inner := images.HandlerFunc(func(ctx context.Context, desc ocispec.Descriptor) ([]ocispec.Descriptor, error) {
-		out := make([]ocispec.Descriptor, len(children))
-		copy(out, children)
-		return out, nil
-	})
-	var h images.Handler
-	if c.Flavour == "extra" {
-		h = source.AppendExtraLabelsHandler(c.Prefetch, ctdsnapshotters.AppendInfoHandlerWrapper(c.Ref))(inner)
-	} else {
-		h = source.AppendDefaultLabelsHandlerWrapper(c.Ref, c.Prefetch)(inner)
-	}
-	var got []ocispec.Descriptor
-	var herr error
-	func() {
-		defer func() {
-			if r := recover(); r != nil {
-				o.panicked = fmt.Sprint(r)
-			}
-		}()
-		got, herr = h.Handle(context.Background(), ocispec.Descriptor{MediaType: c.MT, Digest: digest.Digest(c.MDigest), Size: 1234})
-	}()
-	if o.panicked != "" {
-		o.handlerErr = true
-		return o, []string{"label handler panicked: " + o.panicked}
-	}
-	if herr != nil {
-		o.handlerErr = true
-		return o, nil
-	}
-	if len(got) != len(children) {
-		return o, []string{"handler changed the number of children"}
-	}
-	for i := range got {
-		if got[i].Digest != children[i].Digest || got[i].MediaType != children[i].MediaType || !reflect.DeepEqual(got[i].URLs, children[i].URLs) {
-			problems = append(problems, fmt.Sprintf("handler altered child %d beyond its annotations", i))
-		}
-		o.anns = append(o.anns, got[i].Annotations)
-	}
-	rdef := source.FromDefaultLabels(hostsStub)
-	rsvc := service.VerifSources(hostsStub)
-	for _, p := range c.Probes {
-		if p.Layer < 0 || p.Layer >= len(o.anns) || !recorded(c, p.Layer) {
-			continue
-		}
-		m := map[string]string{}
-		for k, v := range o.anns[p.Layer] {
-			m[k] = v
-		}
-		for _, mu := range p.Muts {
-			if mu.Op == "del" {
-				delete(m, mu.Key)
-			} else {
-				m[mu.Key] = mu.Val
-			}
-		}
-		po := probeObs{p: p, m: m}
-		var pr []string
-		po.rdef, pr = runReader(rdef, m)
-		problems = append(problems, pr...)
-		po.rsvc, pr = runReader(rsvc, m)
-		problems = append(problems, pr...)
-		po.mount = mountNeigh(rsvc, m)
-		po.pf = mountPrefetch(m, p.Dflt)
-		o.probes = append(o.probes, po)
-	}
-	return o, problems
-}
-
-// ---------------------------------------------------------------------------------------------
-// model-free oracle
-
-type failure struct {
-	sig    string // "" = violation
-	what   string
-	detail any
-}
-
-func isManifest(mt string) bool {
-	return mt == ocispec.MediaTypeImageManifest || mt == images.MediaTypeDockerSchema2Manifest
-}
-
-func strsEq(a, b []string) bool {
-	if len(a) != len(b) {
-		return false
-	}
-	for i := range a {
-		if a[i] != b[i] {
-			return false
-		}
-	}
-	return true
-}
-
-// keptPrefix: the longest prefix of values the documented size-limited append keeps under key
-func keptPrefix(key string, values []string) []string {
-	acc := ""
-	var kept []string
-	for _, u := range values {
-		if ctdlabels.Validate(key, acc+u+",") != nil {
-			break
-		}
-		acc += u + ","
-		kept = append(kept, u)
-	}
-	return kept
-}
-
-// wire: what a URL list looks like after the protocol's join/split
-func wire(key string, values []string) []string {
-	return strings.Split(strings.Join(keptPrefix(key, values), ","), ",")
-}
-
-const (
-	uSame = iota
-	uTruncated
-	uEmptyFinding
-	uCommaFinding
-	uMismatch
-)
-
-// classifyURLs compares the URLs read back (got) with the URLs of the manifest descriptor (own).
-func classifyURLs(key string, own, got []string) int {
-	if strsEq(own, got) {
-		return uSame
-	}
-	kept := keptPrefix(key, own)
-	if len(kept) < len(own) && len(kept) > 0 && strsEq(kept, got) {
-		return uTruncated
-	}
-	if len(kept) == 0 && strsEq(got, []string{""}) {
-		return uEmptyFinding
-	}
-	hasComma := false
-	for _, u := range kept {
-		if strings.Contains(u, ",") {
-			hasComma = true
-		}
-	}
-	if hasComma && strsEq(got, strings.Split(strings.Join(kept, ","), ",")) {
-		return uCommaFinding
-	}
-	return uMismatch
-}
-
-func parseRefOK(s string) (reference.Spec, bool) {
-	sp, err := reference.Parse(s)
-	return sp, err == nil
-}
-
-func digestOK(s string) bool {
-	_, err := digest.Parse(s)
-	return err == nil
-}
-
-// flavourOK: are the mandatory labels of one reader present and well-formed in m
-func flavourOK(m map[string]string, refK, dgK, layersK string) bool {
-	r, ok := m[refK]
-	if !ok {
-		return false
-	}
-	if _, ok := parseRefOK(r); !ok {
-		return false
-	}
-	d, ok := m[dgK]
-	if !ok || !digestOK(d) {
-		return false
-	}
-	if l, ok := m[layersK]; ok {
-		for _, e := range strings.Split(l, ",") {
-			if !digestOK(e) {
-				return false
-			}
-		}
-	}
-	return true
-}
-
-func checkAccepted(res readRes, m map[string]string, refK, dgK string, who string) []failure {
-	var fs []failure
-	sp, _ := parseRefOK(m[refK])
-	if !reflect.DeepEqual(res.Name, sp) {
-		fs = append(fs, failure{what: who + ": resolved to a reference other than the one in the label", detail: map[string]string{"label": m[refK], "got": res.Name.String()}})
-	}
-	if res.Dg != m[dgK] {
-		fs = append(fs, failure{what: who + ": resolved to a digest other than the one in the label", detail: map[string]string{"label": m[dgK], "got": res.Dg}})
-	}
-	return fs
-}
-
-func oracle(c Case, o obs) []failure {
-	var fs []failure
-	if o.handlerErr {
-		// the handlers may only fail when the manifest carries a digest that does not parse (extra flavour)
-		allOK := true
-		for _, ch := range c.Children {
-			if !digestOK(ch.Digest) {
-				allOK = false
-			}
-		}
-		if allOK {
-			fs = append(fs, failure{what: "label handler failed on a manifest with well-formed digests"})
-		}
-		return fs
-	}
-	man := isManifest(c.MT)
-	layerIdx := []int{}
-	for i, ch := range c.Children {
-		if images.IsLayerType(ch.MT) {
-			layerIdx = append(layerIdx, i)
-		}
-	}
-	// clause 1: every label written is accepted by containerd's validation
-	for i, a := range o.anns {
-		if (!man || !images.IsLayerType(c.Children[i].MT)) && len(a) != 0 {
-			fs = append(fs, failure{what: fmt.Sprintf("labels attached to child %d which is not a layer of an image manifest", i)})
-		}
-		for k, v := range a {
-			if err := ctdlabels.Validate(k, v); err != nil {
-				fs = append(fs, failure{what: "a written label is rejected by containerd's label validation", detail: map[string]any{"child": i, "key": k, "len": len(k) + len(v)}})
-			}
-		}
-	}
-	_, refGood := parseRefOK(c.Ref)
-	for _, po := range o.probes {
-		m := po.m
-		defOK := flavourOK(m, kRef, kDigest, kLayers)
-		criOK := flavourOK(m, kCriRef, kCriDigest, kCriLayers)
-		// clause: missing / malformed mandatory labels are rejected, accepted ones resolve to the labelled source
-		if po.rdef.OK != defOK {
-			fs = append(fs, failure{what: fmt.Sprintf("FromDefaultLabels accepted=%v but mandatory labels well-formed=%v", po.rdef.OK, defOK), detail: m})
-		} else if po.rdef.OK {
-			fs = append(fs, checkAccepted(po.rdef, m, kRef, kDigest, "FromDefaultLabels")...)
-		}
-		if po.rsvc.OK != (defOK || criOK) {
-			fs = append(fs, failure{what: fmt.Sprintf("service reader accepted=%v but mandatory labels well-formed: cri=%v default=%v", po.rsvc.OK, criOK, defOK), detail: m})
-		} else if po.rsvc.OK {
-			if criOK {
-				fs = append(fs, checkAccepted(po.rsvc, m, kCriRef, kCriDigest, "service reader")...)
-			} else {
-				fs = append(fs, checkAccepted(po.rsvc, m, kRef, kDigest, "service reader")...)
-			}
-		}
-		// what Mount pre-resolves is exactly the reconstructed neighbour list, never the target itself
-		if po.rsvc.OK {
-			if len(po.mount) != len(po.rsvc.Neigh) {
-				fs = append(fs, failure{what: "Mount's neighbouring layers differ from the reconstructed list"})
-			}
-			for i, n := range po.mount {
-				if n.D == po.rsvc.Dg {
-					fs = append(fs, failure{what: "Mount would pre-resolve the target itself as a neighbour"})
-				}
-				if i < len(po.rsvc.Neigh) && (n.D != po.rsvc.Neigh[i].D || !strsEq(n.U, po.rsvc.Neigh[i].U)) {
-					fs = append(fs, failure{what: "Mount's neighbouring layers differ from the reconstructed list"})
-				}
-			}
-		}
-		if len(po.p.Muts) != 0 {
-			continue
-		}
-		// ---- round trip of an unmodified annotation map of layer child po.p.Layer ----
-		idx := po.p.Layer
-		me := c.Children[idx]
-		if !man || !images.IsLayerType(me.MT) {
-			continue
-		}
-		res := po.rsvc
-		who := "service reader"
-		if c.Flavour != "extra" {
-			// the default labels are read by FromDefaultLabels, directly or as the fallback of the service chain
-			if po.rdef.OK != po.rsvc.OK || (po.rdef.OK && !reflect.DeepEqual(po.rdef, po.rsvc)) {
-				fs = append(fs, failure{what: "service reader and FromDefaultLabels disagree on default labels"})
-			}
-		}
-		wellFormed := refGood && digestOK(me.Digest)
-		for _, j := range layerIdx {
-			if j >= idx && !digestOK(c.Children[j].Digest) {
-				wellFormed = false // a malformed digest further down may or may not reach the layers label
-			}
-		}
-		if !res.OK {
-			if wellFormed {
-				fs = append(fs, failure{what: who + ": labels written for a well-formed manifest are rejected at mount time", detail: map[string]any{"child": idx}})
-			}
-			continue
-		}
-		sp, _ := parseRefOK(c.Ref)
-		if !refGood || !reflect.DeepEqual(res.Name, sp) {
-			fs = append(fs, failure{what: who + ": reconstructed image reference differs from the pulled one", detail: map[string]any{"child": idx, "got": res.Name.String()}})
-		}
-		if res.Dg != me.Digest {
-			fs = append(fs, failure{what: who + ": reconstructed layer digest differs", detail: map[string]any{"child": idx, "got": res.Dg, "want": me.Digest}})
-		}
-		if po.pf != c.Prefetch {
-			fs = append(fs, failure{what: "prefetch-size label does not round-trip", detail: map[string]any{"child": idx, "got": po.pf, "want": c.Prefetch}})
-		}
-		switch classifyURLs(kURLs, me.URLs, res.URLs) {
-		case uEmptyFinding:
-			fs = append(fs, failure{sig: sigEmptyURLs, what: "target layer without URLs is reconstructed with URLs [\"\"]", detail: map[string]any{"child": idx}})
-		case uCommaFinding:
-			fs = append(fs, failure{sig: sigCommaURL, what: "a URL containing a comma comes back as several URLs", detail: map[string]any{"child": idx}})
-		case uMismatch:
-			fs = append(fs, failure{what: who + ": URLs of the target layer are not reproduced", detail: map[string]any{"child": idx, "got": res.URLs, "want": me.URLs}})
-		}
-		// neighbours: a manifest-order prefix of the layers from this one on, the target's own digest skipped
-		type fl struct{ rel, abs int } // relative index in children[idx:], absolute index
-		var following []fl
-		for _, j := range layerIdx {
-			if j >= idx {
-				following = append(following, fl{j - idx, j})
-			}
-		}
-		gotD := make([]string, len(res.Neigh))
-		for i, n := range res.Neigh {
-			gotD[i] = n.D
-		}
-		bestK := -1
-		for k := len(following); k >= 0; k-- {
-			var exp []string
-			for _, f := range following[:k] {
-				if d := c.Children[f.abs].Digest; d != me.Digest {
-					exp = append(exp, d)
-				}
-			}
-			if strsEq(exp, gotD) {
-				bestK = k
-				break
-			}
-		}
-		if bestK < 0 {
-			fs = append(fs, failure{what: who + ": neighbouring layers are not a manifest-order prefix of the following layers", detail: map[string]any{"child": idx, "got": gotD}})
-			continue
-		}
-		if bestK < len(following) {
-			// dropping layers is only allowed when the next digest would push the label over the size limit
-			var ds []string
-			for _, f := range following[:bestK+1] {
-				ds = append(ds, c.Children[f.abs].Digest)
-			}
-			lk, v := kLayers, strings.Join(ds, ",")+","
-			if c.Flavour == "extra" {
-				lk, v = kCriLayers, strings.Join(ds, ",")
-			}
-			if ctdlabels.Validate(lk, v) == nil {
-				fs = append(fs, failure{what: who + ": following layers are missing from the neighbour list although the label had room", detail: map[string]any{"child": idx, "kept": bestK, "of": len(following)}})
-			}
-		}
-		// pairing: every neighbour carries its own URLs
-		p := 0
-		for q, f := range following[:bestK] {
-			own := c.Children[f.abs]
-			if own.Digest == me.Digest {
-				continue
-			}
-			got := res.Neigh[p].U
-			p++
-			cls := uMismatch
-			if c.Flavour == "extra" {
-				// descriptors with equal digests denote the same blob: the URLs of any of them are its own
-				for _, j := range layerIdx {
-					if c.Children[j].Digest == own.Digest {
-						if x := classifyURLs(kURLsPrefix+strconv.Itoa(q), c.Children[j].URLs, got); x < cls {
-							cls = x
-						}
-					}
-				}
-			} else {
-				cls = classifyURLs(kURLsPrefix+strconv.Itoa(f.rel), own.URLs, got)
-			}
-			switch cls {
-			case uEmptyFinding:
-				fs = append(fs, failure{sig: sigEmptyURLs, what: "neighbouring layer without URLs is reconstructed with URLs [\"\"]", detail: map[string]any{"child": idx, "neighbour": f.abs}})
-			case uCommaFinding:
-				fs = append(fs, failure{sig: sigCommaURL, what: "a URL containing a comma comes back as several URLs", detail: map[string]any{"child": idx, "neighbour": f.abs}})
-			case uMismatch:
-				// known class: default flavour, a non-layer child between the target and this neighbour: the writer numbers the
-				// urls.<i> labels by position in children[i:], the reader by position in the layers label
-				if c.Flavour != "extra" && q < f.rel {
-					other := c.Children[idx+q]
-					var exp []string
-					if images.IsLayerType(other.MT) {
-						exp = wire(kURLsPrefix+strconv.Itoa(q), other.URLs)
-					}
-					if strsEq(exp, got) {
-						fs = append(fs, failure{sig: sigShift, what: "non-layer child inside the manifest's layer list: neighbour paired with the urls label of another position", detail: map[string]any{"child": idx, "neighbour": f.abs, "got": got, "own": own.URLs}})
-						continue
-					}
-				}
-				fs = append(fs, failure{what: who + ": neighbouring layer is not paired with its own URLs", detail: map[string]any{"child": idx, "neighbour": f.abs, "got": got, "own": own.URLs}})
-			}
-		}
-	}
-	return fs
-}
-
-// ---------------------------------------------------------------------------------------------
-// Coq printing
-
-func coqLit(s string) string {
-	var b strings.Builder
-	b.WriteByte('"')
-	for i := 0; i < len(s); i++ {
-		ch := s[i]
-		switch {
-		case ch == '"':
-			b.WriteString("\"\"")
-		case ch < 0x20 || ch > 0x7e:
-			b.WriteByte('?') // never generated; keeps the term well-formed (shows up as a mismatch)
-		default:
-			b.WriteByte(ch)
-		}
-	}
-	b.WriteByte('"')
-	return b.String()
-}
-
-// coqStr prints a Go string as a Coq string expression; runs of >= 24 equal bytes are printed run-length encoded
-// (srep n "x", see Model/Labels.v) because the elaboration of long literals dominates the cost of a check run.
-func coqStr(s string) string {
-	const minRun = 24
-	var parts []string
-	start := 0
-	for i := 0; i < len(s); {
-		j := i
-		for j < len(s) && s[j] == s[i] {
-			j++
-		}
-		if j-i >= minRun && s[i] != '"' && s[i] >= 0x20 && s[i] <= 0x7e {
-			if i > start {
-				parts = append(parts, coqLit(s[start:i]))
-			}
-			parts = append(parts, fmt.Sprintf("(srep %d %s)", j-i, coqLit(s[i:i+1])))
-			start = j
-		}
-		i = j
-	}
-	if start < len(s) || len(parts) == 0 {
-		parts = append(parts, coqLit(s[start:]))
-	}
-	out := parts[len(parts)-1]
-	for k := len(parts) - 2; k >= 0; k-- {
-		out = "(sapp " + parts[k] + " " + out + ")"
-	}
-	return out
-}
-
-func coqStrs(xs []string) string {
-	s := make([]string, len(xs))
-	for i, x := range xs {
-		s[i] = coqStr(x)
-	}
-	return hx.CoqList(s)
-}
-
-// dict maps the digests and (comma-free) URLs of the case's children to piece references, so that the observed
-// strings are printed compressed: a value is the comma-join of pieces (see V in Model/Labels.v).
-type dict map[string]string
-
-func newDict(c Case) dict {
-	d := dict{}
-	for i, ch := range c.Children {
-		if len(ch.Digest) >= 8 && !strings.Contains(ch.Digest, ",") {
-			if _, ok := d[ch.Digest]; !ok {
-				d[ch.Digest] = fmt.Sprintf("PD %d", i)
-			}
-		}
-		for j, u := range ch.URLs {
-			if len(u) >= 12 && !strings.Contains(u, ",") {
-				if _, ok := d[u]; !ok {
-					d[u] = fmt.Sprintf("PU %d %d", i, j)
-				}
-			}
-		}
-	}
-	return d
-}
-
-// val prints a string as a piece list
-func (d dict) val(v string) string {
-	var out []string
-	lit := []string{}
-	flush := func() {
-		if len(lit) > 0 {
-			out = append(out, "PS "+coqStr(strings.Join(lit, ",")))
-			lit = lit[:0]
-		}
-	}
-	for _, e := range strings.Split(v, ",") {
-		if ref, ok := d[e]; ok {
-			flush()
-			out = append(out, ref)
-		} else {
-			lit = append(lit, e) // literal elements are merged: a literal piece may contain commas
-		}
-	}
-	flush()
-	return hx.CoqList(out)
-}
-
-func (d dict) vals(xs []string) string {
-	s := make([]string, len(xs))
-	for i, x := range xs {
-		s[i] = d.val(x)
-	}
-	return hx.CoqList(s)
-}
-
-func coqKey(k string) string {
-	switch k {
-	case kRef:
-		return "KRef"
-	case kDigest:
-		return "KDigest"
-	case kLayers:
-		return "KLayers"
-	case kURLs:
-		return "KUrls"
-	case kPrefetch:
-		return "KPrefetch"
-	case kCriRef:
-		return "KCriRef"
-	case kCriDigest:
-		return "KCriDigest"
-	case kCriLayers:
-		return "KCriLayers"
-	case kCriManifest:
-		return "KCriManifest"
-	}
-	if strings.HasPrefix(k, kURLsPrefix) {
-		t := k[len(kURLsPrefix):]
-		if n, err := strconv.Atoi(t); err == nil && n >= 0 && n < 100000 && strconv.Itoa(n) == t {
-			return fmt.Sprintf("(KUrlsIdx %d)", n)
-		}
-	}
-	return "(KO " + coqStr(k) + ")"
-}
-
-func (d dict) labels(m map[string]string) string {
-	keys := make([]string, 0, len(m))
-	for k := range m {
-		keys = append(keys, k)
-	}
-	sort.Strings(keys)
-	s := make([]string, len(keys))
-	for i, k := range keys {
-		s[i] = "L cs " + coqKey(k) + " " + d.val(m[k])
-	}
-	return hx.CoqList(s)
-}
-
-func (d dict) neighs(ns []neigh) string {
-	s := make([]string, len(ns))
-	for i, n := range ns {
-		s[i] = "Nb cs " + d.val(n.D) + " " + d.vals(n.U)
-	}
-	return hx.CoqList(s)
-}
-
-func (d dict) rd(r readRes) string {
-	if !r.OK {
-		return "RErr"
-	}
-	return "(RO cs " + coqStr(specStr(r.Name)) + " " + d.val(r.Dg) + " " + d.vals(r.URLs) + " " + d.neighs(r.Neigh) + ")"
-}
-
-func coqCase(c Case, o obs) string {
-	d := newDict(c)
-	ch := make([]string, len(c.Children))
-	for i, x := range c.Children {
-		ch[i] = "Ch " + hx.CoqBool(images.IsLayerType(x.MT)) + " " + coqStr(x.Digest) + " " + coqStrs(x.URLs)
-	}
-	// reference strings of this case and what containerd's parser makes of them
-	refs := map[string]bool{c.Ref: true}
-	for _, po := range o.probes {
-		for _, k := range []string{kRef, kCriRef} {
-			if v, ok := po.m[k]; ok {
-				refs[v] = true
-			}
-		}
-	}
-	rk := make([]string, 0, len(refs))
-	for r := range refs {
-		rk = append(rk, r)
-	}
-	sort.Strings(rk)
-	var good []string
-	for _, r := range rk {
-		if sp, ok := parseRefOK(r); ok {
-			good = append(good, "("+coqStr(r)+", "+coqStr(specStr(sp))+")")
-		}
-	}
-	ann := "None"
-	if !o.handlerErr {
-		a := make([]string, len(o.anns))
-		for i, m := range o.anns {
-			if recorded(c, i) {
-				a[i] = "Some " + d.labels(m)
-			} else {
-				a[i] = "None"
-			}
-		}
-		ann = "(Some " + hx.CoqList(a) + ")"
-	}
-	ps := make([]string, len(o.probes))
-	for i, po := range o.probes {
-		ms := make([]string, len(po.p.Muts))
-		for j, mu := range po.p.Muts {
-			if mu.Op == "del" {
-				ms[j] = "MD " + coqKey(mu.Key)
-			} else {
-				ms[j] = "MSs cs " + coqKey(mu.Key) + " " + d.val(mu.Val)
-			}
-		}
-		// compressed: None = "same as the previous field" (see Model/Labels.v, probe)
-		rsvc := "None"
-		if !reflect.DeepEqual(po.rdef, po.rsvc) {
-			rsvc = "(Some " + d.rd(po.rsvc) + ")"
-		}
-		mount := "None"
-		if !reflect.DeepEqual(po.mount, po.rsvc.Neigh) {
-			mount = "(Some " + d.neighs(po.mount) + ")"
-		}
-		ps[i] = fmt.Sprintf("mkProbe %d %s %s %s %s %s %s", po.p.Layer, hx.CoqList(ms), "("+hx.CoqZ(po.p.Dflt)+")",
-			d.rd(po.rdef), rsvc, mount, "("+hx.CoqZ(po.pf)+")")
-	}
-	return fmt.Sprintf("let cs := %s in mkCaseS %s %s %s (%s) %s cs %s %s %s", hx.CoqList(ch), hx.CoqBool(c.Flavour == "extra"), hx.CoqBool(isManifest(c.MT)),
-		coqStr(c.Ref), hx.CoqZ(c.Prefetch), coqStr(c.MDigest), hx.CoqList(good), ann, hx.CoqList(ps))
-}
-
-// ---------------------------------------------------------------------------------------------
-// generation
-
-const (
-	mtConfig = "application/vnd.oci.image.config.v1+json"
-	mtHelm   = "application/vnd.cncf.helm.chart.content.v1.tar+gzip" // not a layer type for containerd
-)
-
-var layerMTs = []string{
-	ocispec.MediaTypeImageLayerGzip,
-	ocispec.MediaTypeImageLayer,
-	ocispec.MediaTypeImageLayerZstd,
-	images.MediaTypeDockerSchema2LayerGzip,
-	images.MediaTypeDockerSchema2LayerForeignGzip,
-	"application/vnd.oci.image.layer.nondistributable.v1.tar+gzip",
-}
-
-var goodRefs = []string{
-	"registry.example.com/foo/bar:latest",
-	"docker.io/library/ubuntu:22.04",
-	"ghcr.io/stargz-containers/python:3.9-esgz",
-	"localhost:5000/a/b/c:v1",
-	"registry.example.com/app@sha256:0123456789abcdef0123456789abcdef0123456789abcdef0123456789abcdef",
-	"example.com//double/slash:tag",
-	"example.com/NoTag",
-	"10.0.0.1:5000/x:y",
-}
-
-var badRefs = []string{
-	"",
-	"nohost",
-	"http://registry.example.com/foo:bar",
-	"/only/path:tag",
-	"exa mple.com/foo:bar",
-	"example.com:port/foo",
-	":5000/foo",
-}
-
-func hexOf(r *hx.Rng, n int) string { return hex.EncodeToString(r.Bytes(n)) }
-
-func genDigest(r *hx.Rng, alg int) string {
-	switch alg {
-	case 1:
-		return "sha384:" + hexOf(r, 48)
-	case 2:
-		return "sha512:" + hexOf(r, 64)
-	}
-	return "sha256:" + hexOf(r, 32)
-}
-
-func badDigest(r *hx.Rng) string {
-	switch r.Intn(10) {
-	case 0:
-		return ""
-	case 1:
-		return "sha256:" + strings.ToUpper(hexOf(r, 32))
-	case 2:
-		return "sha256:" + hexOf(r, 31)
-	case 3:
-		return "sha256:" + hexOf(r, 33)
-	case 4:
-		return "md5:" + hexOf(r, 16)
-	case 5:
-		return hexOf(r, 32)
-	case 6:
-		return "sha256:"
-	case 7:
-		return "sha512:" + hexOf(r, 32)
-	case 8:
-		return "sha256:" + hexOf(r, 31) + "g0"
-	}
-	return "sha256-" + hexOf(r, 32)
-}
-
-func genURL(r *hx.Rng, long bool) string {
-	hosts := []string{"https://mirror.example.com", "http://10.1.2.3:8080", "https://foreign.blob.core.windows.net"}
-	u := hosts[r.Intn(len(hosts))] + "/v2/blobs/" + hexOf(r, r.Range(2, 8))
-	if long {
-		u += "/" + strings.Repeat("p", r.Range(100, 400)) + "?sig=" + hexOf(r, 16)
-	}
-	return u
-}
-
-// URL lists that run into the label size limit (expensive to print: used once per some cases)
-func genHugeURLs(r *hx.Rng) []string {
-	if r.Chance(1, 4) { // a first URL that can never fit
-		return []string{genURL(r, false) + "/" + strings.Repeat("x", r.Range(4000, 4200)), genURL(r, false)}
-	}
-	n := r.Range(12, 24)
-	us := make([]string, n)
-	for i := range us {
-		us[i] = genURL(r, true)
-	}
-	return us
-}
-
-func genURLs(r *hx.Rng, foreignBias bool) []string {
-	x := r.Intn(100)
-	switch {
-	case x < 50 && !foreignBias:
-		return nil
-	case x < 55:
-		return []string{}
-	case x < 58:
-		return []string{""}
-	case x < 63:
-		return []string{genURL(r, false) + "?a=1,b=2"}
-	case x < 66:
-		return []string{genURL(r, false), "", genURL(r, false)}
-	}
-	n := r.Range(1, 3)
-	us := make([]string, n)
-	for i := range us {
-		us[i] = genURL(r, false)
-	}
-	return us
-}
-
-func pick(c Case, n int, r *hx.Rng) []int {
-	// which children get their annotations printed / probed: all for small manifests; first, last and the region where
-	// the layers label stops being truncated for large ones
-	if len(c.Children) <= 10 {
-		return nil
-	}
-	set := map[int]bool{0: true, 1: true, 2: true, len(c.Children) - 1: true, len(c.Children) - 2: true}
-	for i := 0; i < n; i++ {
-		set[r.Intn(len(c.Children))] = true
-	}
-	out := []int{}
-	for k := range set {
-		out = append(out, k)
-	}
-	sort.Ints(out)
-	return out
-}
-
-func genPrefetch(r *hx.Rng) int64 {
-	switch r.Intn(8) {
-	case 0:
-		return 0
-	case 1:
-		return -1
-	case 2:
-		return 9223372036854775807
-	case 3:
-		return -9223372036854775808
-	case 4:
-		return int64(r.U64())
-	}
-	return int64(r.Intn(1 << 30))
-}
-
-func gen(r *hx.Rng) Case {
-	c := Case{Flavour: "default", MT: ocispec.MediaTypeImageManifest}
-	if r.Bool() {
-		c.Flavour = "extra"
-	}
-	switch r.Intn(40) {
-	case 0:
-		c.MT = ocispec.MediaTypeImageIndex
-	case 1:
-		c.MT = mtConfig
-	case 2, 3, 4, 5, 6, 7, 8, 9, 10, 11, 12:
-		c.MT = images.MediaTypeDockerSchema2Manifest
-	}
-	c.Ref = goodRefs[r.Intn(len(goodRefs))]
-	malformed := r.Chance(1, 8)
-	if malformed && r.Chance(1, 3) {
-		c.Ref = badRefs[r.Intn(len(badRefs))]
-	}
-	c.Prefetch = genPrefetch(r)
-	c.MDigest = genDigest(r, 0)
-	nl := 0
-	alg := 0
-	switch x := r.Intn(100); {
-	case x < 4:
-		nl = 0
-	case x < 74:
-		nl = r.Range(1, 5)
-	case x < 95:
-		nl = r.Range(6, 14)
-	case x < 98: // sha512 digests: the layers label overflows after 29 entries
-		nl = r.Range(28, 34)
-		alg = 2
-	default: // sha256: overflow after 56 / 57 entries
-		nl = r.Range(55, 60)
-	}
-	huge := -1
-	if r.Chance(1, 20) && nl > 0 {
-		huge = r.Intn(nl)
-	}
-	foreign := r.Chance(1, 4)
-	c.Children = append(c.Children, Child{MT: mtConfig, Digest: genDigest(r, 0)})
-	var pool []string
-	for i := 0; i < nl; i++ {
-		ch := Child{MT: layerMTs[r.Intn(len(layerMTs))]}
-		a := alg
-		if alg == 0 && r.Chance(1, 12) {
-			a = r.Intn(3)
-		}
-		if len(pool) > 0 && r.Chance(1, 6) {
-			ch.Digest = pool[r.Intn(len(pool))] // repeated digest
-			if r.Bool() {
-				// same descriptor repeated: same URLs
-				for _, o := range c.Children {
-					if o.Digest == ch.Digest {
-						ch.URLs = o.URLs
-					}
-				}
-			} else {
-				ch.URLs = genURLs(r, foreign)
-			}
-		} else {
-			ch.Digest = genDigest(r, a)
-			ch.URLs = genURLs(r, foreign)
-		}
-		if nl > 20 && r.Chance(4, 5) {
-			ch.URLs = nil // keep the big cases small on disk
-		}
-		if i == huge {
-			ch.URLs = genHugeURLs(r)
-		}
-		pool = append(pool, ch.Digest)
-		if malformed && r.Chance(1, 6) {
-			ch.Digest = badDigest(r)
-		}
-		c.Children = append(c.Children, ch)
-		if r.Chance(1, 60) {
-			// a non-layer blob inside the manifest's layer list (artifact-style manifests)
-			c.Children = append(c.Children, Child{MT: mtHelm, Digest: genDigest(r, 0), URLs: []string{genURL(r, false)}})
-		}
-	}
-	c.Record = pick(c, 3, r)
-	// plain probes of every recorded child
-	for i := range c.Children {
-		if recorded(c, i) {
-			c.Probes = append(c.Probes, Probe{Layer: i, Dflt: genPrefetch(r)})
-		}
-	}
-	return c
-}
-
-// addMutations needs the labels actually present, so it runs after a first execution
-func addMutations(c Case, o obs, r *hx.Rng) Case {
-	if o.handlerErr || len(o.anns) == 0 {
-		return c
-	}
-	var cand []int
-	for i, a := range o.anns {
-		if len(a) > 0 && recorded(c, i) {
-			cand = append(cand, i)
-		}
-	}
-	if len(cand) == 0 {
-		return c
-	}
-	n := r.Range(1, 4)
-	for x := 0; x < n; x++ {
-		li := cand[r.Intn(len(cand))]
-		a := o.anns[li]
-		keys := make([]string, 0, len(a))
-		for k := range a {
-			keys = append(keys, k)
-		}
-		sort.Strings(keys)
-		mand := []string{kRef, kDigest, kLayers}
-		if c.Flavour == "extra" {
-			mand = []string{kCriRef, kCriDigest, kCriLayers}
-		}
-		p := Probe{Layer: li, Dflt: genPrefetch(r)}
-		nm := r.Range(1, 3)
-		for y := 0; y < nm; y++ {
-			var k string
-			if r.Chance(2, 3) {
-				k = mand[r.Intn(len(mand))]
-			} else {
-				k = keys[r.Intn(len(keys))]
-			}
-			if r.Chance(2, 5) {
-				p.Muts = append(p.Muts, Mut{Op: "del", Key: k})
-				continue
-			}
-			var v string
-			switch k {
-			case kRef, kCriRef:
-				if r.Chance(2, 3) {
-					v = badRefs[r.Intn(len(badRefs))]
-				} else {
-					v = goodRefs[r.Intn(len(goodRefs))]
-				}
-			case kDigest, kCriDigest:
-				if r.Chance(2, 3) {
-					v = badDigest(r)
-				} else {
-					v = genDigest(r, r.Intn(3))
-				}
-			case kLayers, kCriLayers:
-				parts := strings.Split(a[k], ",")
-				switch r.Intn(6) {
-				case 0:
-					v = ""
-				case 1:
-					v = a[k] + ","
-				case 2:
-					parts[r.Intn(len(parts))] = badDigest(r)
-					v = strings.Join(parts, ",")
-				case 3:
-					i := r.Intn(len(parts))
-					parts = append(parts[:i], parts[i+1:]...)
-					v = strings.Join(parts, ",")
-				case 4:
-					parts = append([]string{genDigest(r, 0)}, parts...)
-					v = strings.Join(parts, ",")
-				default:
-					v = "," + a[k]
-				}
-			case kPrefetch:
-				vals := []string{"", "abc", "+5", "-0", "9223372036854775808", "-9223372036854775808", "-9223372036854775809", "007", " 5", "1_000", "0x10", "-", "+", "12a", "99999999999999999999999"}
-				v = vals[r.Intn(len(vals))]
-			default:
-				if r.Bool() {
-					v = genURL(r, false) + "," + genURL(r, false)
-				} else {
-					v = ""
-				}
-			}
-			p.Muts = append(p.Muts, Mut{Op: "set", Key: k, Val: v})
-		}
-		// sometimes graft the other reader's mandatory labels on top
-		if r.Chance(1, 8) {
-			p.Muts = append(p.Muts, Mut{Op: "set", Key: kRef, Val: goodRefs[r.Intn(len(goodRefs))]},
-				Mut{Op: "set", Key: kDigest, Val: genDigest(r, 0)})
-		}
-		c.Probes = append(c.Probes, p)
-	}
-	return c
-}
-
-// ---------------------------------------------------------------------------------------------
-
-func plainProbes(n int) []Probe {
-	ps := make([]Probe, n)
-	for i := range ps {
-		ps[i] = Probe{Layer: i, Dflt: 7}
-	}
-	return ps
-}
-
-// boundaryCorpus: deterministic sweep, emitted on every run, of manifests whose size-limited labels land exactly on the
-// containerd limit. For every size-limited label kind (urls; urls.<i> with one- and two-digit i; the stargz.layers /
-// cri.image-layers digest lists) the joined value is made to hit len(key)+len(value+",") = 4094..4098, both with one long
-// item and with many short items followed by one more (so that truncation at an item boundary lands on those lengths),
-// for the target layer and for neighbours, with the target's digest repeated further down its own list.
-// Strings are built from long single-character runs so that they print run-length encoded.
-func boundaryCorpus() []Case {
-	lg := ocispec.MediaTypeImageLayerGzip
-	fg := images.MediaTypeDockerSchema2LayerForeignGzip
-	dg := func(i int) string { return fmt.Sprintf("sha256:%02x", i) + strings.Repeat("a", 62) }
-	oneLong := func(n int) []string {
-		const pre = "https://b.example.com/"
-		return []string{pre + strings.Repeat("x", n-len(pre))}
-	}
-	many := func(n int) []string {
-		// 20 items joined to exactly n bytes, then one more item that can never fit
-		var us []string
-		total := 0
-		for i := 0; i < 20; i++ {
-			pre := fmt.Sprintf("https://b.example.com/%02d/", i)
-			l := 199
-			if i == 19 {
-				l = n - total
-			}
-			us = append(us, pre+strings.Repeat("q", l-len(pre)))
-			total += l + 1
-		}
-		return append(us, "https://extra.example.com/never-fits")
-	}
-	var cs []Case
-	for _, fl := range []string{"default", "extra"} {
-		// URL lists: key lengths are 34 (urls), 36 (urls.<d>), 37 (urls.<dd>); value+"," must fit in 4096-key, so the joined
-		// length n = 4056..4063 covers key+value+1 = 4094..4098 for all three (and key+value = 4096..4098 for a value that was
-		// limited under a shorter key)
-		for n := 4056; n <= 4063; n++ {
-			for v, mk := range []func(int) []string{oneLong, many} {
-				b := mk(n)
-				c := Case{Flavour: fl, MT: ocispec.MediaTypeImageManifest, Ref: goodRefs[(n+v)%len(goodRefs)], Prefetch: int64(n), MDigest: dg(200),
-					Children: []Child{{MT: mtConfig, Digest: dg(0)}}}
-				for i := 1; i <= 14; i++ {
-					ch := Child{MT: lg, Digest: dg(i), URLs: []string{fmt.Sprintf("https://s.example.com/%d", i)}}
-					switch i {
-					case 1, 4, 13: // target of child 1; neighbour under urls.3 and urls.12
-						ch.MT, ch.URLs = fg, b
-					case 8: // the first layer again: the target appears in its own neighbour list (urls.7)
-						ch.MT, ch.Digest, ch.URLs = fg, dg(1), b
-					case 6:
-						ch.URLs = nil
-					}
-					c.Children = append(c.Children, ch)
-				}
-				c.Record = []int{1, 2}
-				c.Probes = []Probe{{Layer: 1, Dflt: 1}, {Layer: 2, Dflt: 2}}
-				cs = append(cs, c)
-			}
-		}
-		// digest lists: 55 well-formed digests (72 bytes each with the comma) and one entry of tuned length so that
-		// key + list hits 4094..4098 (stargz.layers: key 43, trailing comma counted; cri.image-layers: key 39, no trailing
-		// comma); the tuned entry cannot be a well-formed digest (all of those have lengths = 7 mod 8), one more layer follows
-		lo := 91
-		if fl == "extra" {
-			lo = 96
-		}
-		for t := lo; t < lo+5; t++ {
-			c := Case{Flavour: fl, MT: ocispec.MediaTypeImageManifest, Ref: goodRefs[t%len(goodRefs)], Prefetch: int64(t), MDigest: dg(200),
-				Children: []Child{{MT: mtConfig, Digest: dg(0)}}}
-			for i := 1; i <= 55; i++ {
-				c.Children = append(c.Children, Child{MT: lg, Digest: dg(i)})
-			}
-			c.Children = append(c.Children, Child{MT: lg, Digest: "sha256:" + strings.Repeat("b", t-1-7)})
-			c.Children = append(c.Children, Child{MT: lg, Digest: dg(57), URLs: []string{"https://s.example.com/57"}})
-			c.Record = []int{1, 2}
-			c.Probes = []Probe{{Layer: 1, Dflt: 1}, {Layer: 2, Dflt: 2}}
-			cs = append(cs, c)
-		}
-	}
-	return cs
-}
-
-func corpus() []Case {
-	d := func(i int) string {
-		s := sha256.Sum256([]byte{byte(i)})
-		return "sha256:" + hex.EncodeToString(s[:])
-	}
-	lg := ocispec.MediaTypeImageLayerGzip
-	fg := images.MediaTypeDockerSchema2LayerForeignGzip
-	var cs []Case
-	for _, fl := range []string{"default", "extra"} {
-		// three layers, one foreign with URLs, a repeated digest
-		c := Case{Flavour: fl, MT: ocispec.MediaTypeImageManifest, Ref: goodRefs[0], Prefetch: 10485760, MDigest: d(100),
-			Children: []Child{{MT: mtConfig, Digest: d(0)}, {MT: lg, Digest: d(1), URLs: []string{"https://a.example.com/1"}},
-				{MT: fg, Digest: d(2), URLs: []string{"https://f.example.com/x", "https://g.example.com/y"}},
-				{MT: lg, Digest: d(1), URLs: []string{"https://a.example.com/1"}}, {MT: lg, Digest: d(3), URLs: []string{"https://b.example.com/3"}}},
-			Probes: plainProbes(5)}
-		mref, mdg := kRef, kDigest
-		if fl == "extra" {
-			mref, mdg = kCriRef, kCriDigest
-		}
-		c.Probes = append(c.Probes,
-			Probe{Layer: 1, Muts: []Mut{{Op: "del", Key: mref}}},
-			Probe{Layer: 1, Muts: []Mut{{Op: "del", Key: mdg}}},
-			Probe{Layer: 2, Muts: []Mut{{Op: "set", Key: mdg, Val: "sha256:zz"}}},
-			Probe{Layer: 2, Muts: []Mut{{Op: "set", Key: mref, Val: "nohost"}}},
-			Probe{Layer: 1, Muts: []Mut{{Op: "set", Key: kPrefetch, Val: "abc"}}, Dflt: 99},
-			Probe{Layer: 1, Muts: []Mut{{Op: "del", Key: kPrefetch}}, Dflt: 98})
-		cs = append(cs, c)
-		// F17: layers without URLs, URL with a comma
-		cs = append(cs, Case{Flavour: fl, MT: images.MediaTypeDockerSchema2Manifest, Ref: goodRefs[1], Prefetch: -1, MDigest: d(101),
-			Children: []Child{{MT: mtConfig, Digest: d(0)}, {MT: lg, Digest: d(1)}, {MT: lg, Digest: d(2), URLs: []string{"https://h.example.com/a,b"}}, {MT: lg, Digest: d(3)}},
-			Probes:   plainProbes(4)})
-		// a non-layer blob between layers with URLs (index shift in the default flavour)
-		cs = append(cs, Case{Flavour: fl, MT: ocispec.MediaTypeImageManifest, Ref: goodRefs[2], Prefetch: 0, MDigest: d(102),
-			Children: []Child{{MT: mtConfig, Digest: d(0)}, {MT: lg, Digest: d(1), URLs: []string{"https://u.example.com/1"}}, {MT: mtHelm, Digest: d(9), URLs: []string{"https://u.example.com/helm"}},
-				{MT: lg, Digest: d(2), URLs: []string{"https://u.example.com/2"}}, {MT: lg, Digest: d(3), URLs: []string{"https://u.example.com/3"}}},
-			Probes: plainProbes(5)})
-		// 60 layers: the layers label is truncated for the early layers
-		big := Case{Flavour: fl, MT: ocispec.MediaTypeImageManifest, Ref: goodRefs[3], Prefetch: 1, MDigest: d(103), Children: []Child{{MT: mtConfig, Digest: d(0)}}}
-		for i := 1; i <= 60; i++ {
-			ch := Child{MT: lg, Digest: d(i)}
-			if i%20 == 0 {
-				ch.URLs = []string{fmt.Sprintf("https://big.example.com/%d", i)}
-			}
-			big.Children = append(big.Children, ch)
-		}
-		big.Record = []int{0, 1, 3, 4, 5, 6, 60}
-		for _, i := range big.Record {
-			big.Probes = append(big.Probes, Probe{Layer: i, Dflt: 3})
-		}
-		cs = append(cs, big)
-		// not a manifest: nothing is attached
-		cs = append(cs, Case{Flavour: fl, MT: ocispec.MediaTypeImageIndex, Ref: goodRefs[0], Prefetch: 5, MDigest: d(104),
-			Children: []Child{{MT: ocispec.MediaTypeImageManifest, Digest: d(1)}, {MT: lg, Digest: d(2)}}, Probes: plainProbes(2)})
-	}
-	return cs
-}
+import "verif/harness/c20"
 
 func main() {
-	ctx := hx.Start()
-	emit := func(c Case) {
-		o, problems := execCase(c)
-		fails := oracle(c, o)
-		term := coqCase(c, o)
-		ctx.Count("flavour." + c.Flavour)
-		nLayers := 0
-		for _, ch := range c.Children {
-			if images.IsLayerType(ch.MT) {
-				nLayers++
-			} else if ch.MT == mtHelm {
-				ctx.Count("input.nonlayer-in-layers")
-			}
-			if !digestOK(ch.Digest) {
-				ctx.Count("input.bad-digest")
-			}
-		}
-		ctx.CountN("layers", nLayers)
-		// input classes the generator must produce (functions of the input only, never of the implementation's answers)
-		dsum, withURLs := 0, 0
-		for _, ch := range c.Children {
-			if !images.IsLayerType(ch.MT) {
-				continue
-			}
-			dsum += len(ch.Digest) + 1
-			usum := 0
-			for _, u := range ch.URLs {
-				usum += len(u) + 1
-			}
-			if len(ch.URLs) > 0 {
-				withURLs++
-			}
-			if len(ch.URLs) > 1 && len(kURLs)+usum > 4096 {
-				ctx.Count("input.urls-over-limit")
-			}
-			// a prefix of the URL list whose label lands within 2 bytes of the limit under one of the urls keys
-			acc := 0
-			for _, u := range ch.URLs {
-				acc += len(u) + 1
-				for _, kl := range []int{len(kURLs), len(kURLsPrefix) + 1, len(kURLsPrefix) + 2} {
-					if d := kl + acc - 4096; d >= -2 && d <= 2 {
-						ctx.Count("input.urls-at-limit")
-					}
-				}
-			}
-		}
-		if isManifest(c.MT) && len(kLayers)+dsum > 4096 {
-			ctx.Count("input.layers-over-limit")
-		}
-		acc := 0
-		for _, ch := range c.Children {
-			if images.IsLayerType(ch.MT) {
-				acc += len(ch.Digest) + 1
-				if d := len(kLayers) + acc - 4096; d >= -2 && d <= 2 {
-					ctx.Count("input.layers-at-limit")
-				}
-				if d := len(kCriLayers) + acc - 1 - 4096; d >= -2 && d <= 2 {
-					ctx.Count("input.layers-at-limit")
-				}
-			}
-		}
-		if withURLs >= 2 {
-			ctx.Count("input.several-layers-with-urls")
-		}
-		if _, ok := parseRefOK(c.Ref); !ok {
-			ctx.Count("input.bad-ref")
-		}
-		if !isManifest(c.MT) {
-			ctx.Count("input.not-manifest")
-		}
-		if o.handlerErr {
-			ctx.Count("result.handler-error")
-		}
-		accepted, withNeigh := 0, 0
-		for _, po := range o.probes {
-			if len(po.p.Muts) > 0 {
-				ctx.Count("probe.mutated")
-				if po.rsvc.OK {
-					ctx.Count("probe.mutated.accepted")
-				} else {
-					ctx.Count("probe.mutated.rejected")
-				}
-				continue
-			}
-			ctx.Count("probe.plain")
-			if po.rsvc.OK {
-				accepted++
-				if len(po.rsvc.Neigh) > 0 {
-					withNeigh++
-				}
-				for _, n := range po.rsvc.Neigh {
-					if len(n.U) > 0 && !strsEq(n.U, []string{""}) {
-						ctx.Count("result.neighbour-with-urls")
-						break
-					}
-				}
-				// truncation of the layers label observed?
-				rest := 0
-				for j := po.p.Layer; j < len(c.Children); j++ {
-					if images.IsLayerType(c.Children[j].MT) && c.Children[j].Digest != c.Children[po.p.Layer].Digest {
-						rest++
-					}
-				}
-				if len(po.rsvc.Neigh) < rest {
-					ctx.Count("result.layers-truncated")
-				}
-				if own := c.Children[po.p.Layer].URLs; len(own) > 1 && len(po.rsvc.URLs) < len(own) {
-					ctx.Count("result.urls-truncated")
-				}
-			} else if isManifest(c.MT) && images.IsLayerType(c.Children[po.p.Layer].MT) {
-				ctx.Count("result.plain-rejected")
-			}
-		}
-		seen := map[string]bool{}
-		for _, f := range fails {
-			if f.sig != "" && !seen[f.sig] {
-				seen[f.sig] = true
-				ctx.Count("finding." + f.sig)
-			}
-		}
-		nontrivial := nLayers >= 2 && withNeigh > 0
-		h := sha256.Sum256([]byte(term))
-		id := ctx.Case(term, c, hex.EncodeToString(h[:8]), nontrivial)
-		for _, p := range problems {
-			ctx.Violation(id, p, nil)
-		}
-		// one report per signature and per violation text keeps stats.json small
-		rep := map[string]bool{}
-		for _, f := range fails {
-			key := f.sig + "|" + f.what
-			if rep[key] {
-				continue
-			}
-			rep[key] = true
-			if f.sig != "" {
-				ctx.Finding(id, f.sig, f.what, f.detail)
-			} else {
-				ctx.Violation(id, f.what, f.detail)
-			}
-		}
-	}
-	if ctx.Replay != "" {
-		var c Case
-		ctx.LoadReplay(&c)
-		emit(c)
-		ctx.Finish()
-		return
-	}
-	cs := append(corpus(), boundaryCorpus()...)
-	for _, c := range cs {
-		emit(c)
-	}
-	r := hx.NewRng(ctx.Seed)
-	for i := len(cs); i < ctx.N; i++ {
-		cr := r.Fork()
-		c := gen(cr)
-		o, _ := execCase(c)
-		c = addMutations(c, o, cr)
-		emit(c)
-	}
-	ctx.Finish()
+	c20.Main(c20.ExecHandlers, append(c20.Corpus(), c20.BoundaryCorpus()...), c20.Gen)
 }
